@@ -192,6 +192,7 @@ func runC06(c *Ctx, prop string) {
 		}
 		// ParseFile: append(areas, area) dominated by tag != ""
 		appends := 0
+		var extraGuards []string
 		for _, b := range parse.Blocks {
 			for _, ins := range b.Instrs {
 				call, ok := ins.(*ssa.Call)
@@ -220,6 +221,28 @@ func runC06(c *Ctx, prop string) {
 					if !ok {
 						continue
 					}
+					// a further condition on the annotation text itself (a predicate called with it) decides
+					// whether a matched, non-empty @tag is injected at all: such a tag is silently dropped
+					{
+						cond := iff.Cond
+						if u, ok := cond.(*ssa.UnOp); ok && u.Op == token.NOT {
+							cond = u.X
+						}
+						if pc, ok := cond.(*ssa.Call); ok && calleeName(&pc.Call) != "" {
+							for _, a := range pc.Call.Args {
+								isTagText := false
+								if tc, ok := a.(*ssa.Call); ok && staticCallee(&tc.Call) == tfc {
+									isTagText = true
+								}
+								if tfcInlined && isSubmatchTag(a, map[ssa.Value]bool{}) {
+									isTagText = true
+								}
+								if isTagText {
+									extraGuards = append(extraGuards, "whether a matched, non-empty @tag is injected also depends on "+calleeName(&pc.Call)+"(tag) at "+p.Pos(pc.Pos())+": annotations that predicate rejects are silently not injected")
+								}
+							}
+						}
+					}
 					cmp, ok := iff.Cond.(*ssa.BinOp)
 					if !ok {
 						continue
@@ -246,6 +269,7 @@ func runC06(c *Ctx, prop string) {
 		if appends == 0 {
 			bad = append(bad, "no area construction found")
 		}
+		bad = append(bad, uniqStrings(extraGuards)...)
 		// one source of annotations per field: the trailing comment group. A second source (the doc
 		// comment above the field) gives one field two areas with the same offsets; the second is applied
 		// to offsets the first has already shifted, is skipped in this run and injected by the next one
@@ -262,6 +286,87 @@ func runC06(c *Ctx, prop string) {
 		}
 		c.Sites++
 		c.Check(len(bad) == 0, "C07-AREA", fnName(parse), "area-iff-tag", parse.Pos(), "areas only for matched, non-empty @tag comments", strings.Join(bad, "; "))
+	}
+	// ---------------- EVERYTAG: a matched, non-empty annotation on a field with a tag literal IS injected
+	c.Rule(prop+"-EVERYTAG", "once a comment's @tag text has been found non-empty, the only further condition for building the field's area is that the field has a tag literal (a nil test): no other test — in particular none on the characters of the annotation — can drop it silently", 1)
+	{
+		var bad []string
+		nA := 0
+		for _, b := range parse.Blocks {
+			for _, ins := range b.Instrs {
+				call, ok := ins.(*ssa.Call)
+				if !ok || calleeName(&call.Call) != "builtin.append" {
+					continue
+				}
+				if sl, ok := call.Type().Underlying().(*types.Slice); !ok || !strings.Contains(sl.Elem().String(), "textArea") {
+					continue
+				}
+				if len(call.Call.Args) == 2 && len(variadicElems(call.Call.Args[1])) == 0 {
+					continue
+				}
+				// S: the nearest dominating edge of a comparison with the empty string (the tag-found test)
+				var S *ssa.BasicBlock
+				for d := b; d != nil && S == nil; d = d.Idom() {
+					if len(d.Preds) != 1 {
+						continue
+					}
+					iff, ok := d.Preds[0].Instrs[len(d.Preds[0].Instrs)-1].(*ssa.If)
+					if !ok {
+						continue
+					}
+					if cmp, ok := iff.Cond.(*ssa.BinOp); ok {
+						if sv, isS := constString(cmp.Y); isS && sv == "" {
+							S = d
+						}
+					}
+				}
+				if S == nil {
+					continue
+				}
+				nA++
+				// blocks dominated by S from which the append is reachable inside that region
+				inRegion := func(x *ssa.BasicBlock) bool { return S.Dominates(x) }
+				canReach := map[*ssa.BasicBlock]bool{b: true}
+				for changed := true; changed; {
+					changed = false
+					for _, x := range parse.Blocks {
+						if canReach[x] || !inRegion(x) {
+							continue
+						}
+						for _, sc := range x.Succs {
+							if canReach[sc] && inRegion(sc) {
+								canReach[x] = true
+								changed = true
+							}
+						}
+					}
+				}
+				for _, x := range parse.Blocks {
+					if !inRegion(x) || !canReach[x] || x == b {
+						continue
+					}
+					iff, ok := x.Instrs[len(x.Instrs)-1].(*ssa.If)
+					if !ok {
+						continue
+					}
+					r0, r1 := canReach[x.Succs[0]] && inRegion(x.Succs[0]), canReach[x.Succs[1]] && inRegion(x.Succs[1])
+					if r0 == r1 {
+						continue // not a deciding test (both ways still lead to the area)
+					}
+					okCond := false
+					if cmp, ok := iff.Cond.(*ssa.BinOp); ok && (cmp.Op == token.EQL || cmp.Op == token.NEQ) {
+						if isNilConst(cmp.X) || isNilConst(cmp.Y) {
+							okCond = true
+						}
+					}
+					if !okCond {
+						bad = append(bad, "a matched, non-empty @tag is dropped depending on a further test at "+p.Pos(firstPosOfIf(iff, x))+" (not the field's tag-literal nil test): annotations that fail it are silently not injected")
+					}
+				}
+			}
+		}
+		c.Sites += nA
+		c.Check(len(bad) == 0 && nA > 0, prop+"-EVERYTAG", fnName(parse), "no-extra-guard", parse.Pos(), fmt.Sprintf("%d area constructions, each reached from the tag-found edge under the tag-literal nil test only", nA), strings.Join(uniqStrings(append(bad, map[bool][]string{true: nil, false: {"no area construction behind a tag-found test"}}[nA > 0]...)), "; "))
 	}
 	// ---------------- SOURCE: which text the annotation is looked for in
 	c.Rule(prop+"-SOURCE", "the @tag annotation is looked for in the raw text of each comment of the field's trailing comment group (ast.Comment.Text); CommentGroup.Text() is not used: it silently drops directive-shaped comments (//nolint:…, //go:…, //line …), so a field annotated in such a comment is not injected", 1)
@@ -959,4 +1064,11 @@ func roleOfInlinedList(v ssa.Value) string {
 		}
 	}
 	return "?"
+}
+
+func firstPosOfIf(iff *ssa.If, b *ssa.BasicBlock) token.Pos {
+	if v, ok := iff.Cond.(ssa.Instruction); ok && v.Pos() != token.NoPos {
+		return v.Pos()
+	}
+	return firstPos(b)
 }
